@@ -311,6 +311,16 @@ def cases(draw, max_components=5, loops=True):
             if ov:
                 c["override"] = ov
 
+    # -- a top-level folder that an explicit manifest copies / links into the instance ----------------------------
+    manifest = None
+    plain = [c for c in comps if "$import" not in c]
+    if plain and dowhile is None and draw(st.integers(0, 4)) == 0:
+        manifest = {"folder": "refdata", "method": draw(st.sampled_from(["link", "link", "copy", None]))}
+        c = draw(st.sampled_from(plain))
+        ref = draw(st.sampled_from(["refdata/table.csv:ref", "refdata:ref", "refdata/table.csv:copy"]))
+        c.setdefault("references", []).append(ref)
+        _append_args(c, [ref])
+
     # -- blueprints -------------------------------------------------------------------------------------
     bp = {}
     for plat in platforms:
@@ -323,6 +333,12 @@ def cases(draw, max_components=5, loops=True):
                 b = draw(_options(2))
                 if b:
                     bp.setdefault(plat, {}).setdefault("stages", {})[s] = b
+        if draw(st.integers(0, 5)) == 0:
+            # an inherited option whose value refers to a variable that narrower scopes (stage, user) may redefine
+            where = bp.setdefault(plat, {})
+            target = where.setdefault("global", {}) if draw(st.booleans()) else \
+                where.setdefault("stages", {}).setdefault(draw(st.sampled_from(all_stages)), {})
+            _set_path(target, "resourceManager.config", "walltime", "%%(%s)s" % NUMVAR)
     if bp:
         F["blueprint"] = bp
 
@@ -370,7 +386,7 @@ def cases(draw, max_components=5, loops=True):
         history = [["cycle", False], ["iter", True]] + ([["iter", True]] if draw(st.booleans()) else []) + \
                   [["cycle", draw(st.booleans()), draw(st.booleans())]]      # 3rd field: explicit store before the load?
     return jsonable({"flowir": F, "dowhile": dowhile, "files": files, "platform": platform, "user_vars": user_vars,
-                     "history": history})
+                     "history": history, "manifest": manifest})
 
 
 # ----------------------------------------------------------------------------------------------------------
